@@ -686,7 +686,11 @@ def _ifexp_statements(fn):
 
 def _canon_function(fn):
     _plain_assigns(fn)
-    _ifexp_statements(fn)
+    for _round in range(4):   # an arm may itself be a conditional expression with a call
+        before_ = sum(1 for x in ast.walk(fn) if isinstance(x, ast.IfExp))
+        _ifexp_statements(fn)
+        if sum(1 for x in ast.walk(fn) if isinstance(x, ast.IfExp)) == before_:
+            break
     _split_withs(fn)
     _thread_flag_ifs(fn)
     if "E18" not in _SKIP:
